@@ -653,6 +653,43 @@ class ShapeInterp:
                         cur = merge(cur, r[a])
                     env[a] = cur
             return [env]
+        if isinstance(it, Pair) and it.items and all((isinstance(x, tuple) and x[:1] == ("key",)) or (isinstance(x, Str) and len(x.p) == 1 and x.p[0][0] == "lit") for x in it.items):
+            it = SymList([((x[1] if isinstance(x, tuple) else x.p[0][1]), True) for x in it.items])      # a fixed tuple of texts: every pass happens
+        if isinstance(it, (SymList, Fixed)) and self._as_symlist(it) is not None and self._as_symlist(it).ordered and isinstance(st.target, ast.Name):
+            # unrolled over the symbols in their order; a pass for a symbol that is there only if the molecule has it is optional
+            slots_ = self._as_symlist(it).slots
+            if len(slots_) <= 4:
+                # a short list: every way through every pass is a path of its own (what a pass does to other variables is kept)
+                states = [env]
+                for sym, sure in slots_:
+                    nxt = []
+                    for st0 in states:
+                        lp = {"cont": []}
+                        res = self.block(fi, st.body, [self.bind(st.target, lit(sym), st0)], outs, lp) + lp["cont"]
+                        nxt += res
+                        if not sure:
+                            nxt.append(st0)
+                    states = nxt
+                    if len(states) > 64:
+                        raise AnalysisError(f"shape interpreter: too many paths through the loop at {fi.loc(st)}")
+                return states
+            for sym, sure in slots_:
+                e_in = self.bind(st.target, lit(sym), env)
+                lp = {"cont": []}
+                res = self.block(fi, st.body, [e_in], outs, lp) + lp["cont"]
+                if not res:
+                    raise AnalysisError(f"shape interpreter: a pass of the loop at {fi.loc(st)} does not come back")
+                new_env = dict(res[0]) if len(res) == 1 else dict(env)
+                new_env.pop(st.target.id, None)
+                if st.target.id in env:
+                    new_env[st.target.id] = env[st.target.id]
+                for a in accs:
+                    val = res[0][a]
+                    for r in res[1:]:
+                        val = merge(val, r[a]) if not isinstance(val, Str) else join_str(val, r[a])
+                    new_env[a] = val if sure else merge(env[a], val)
+                env = new_env
+            return [env]
         if isinstance(it, (SymSeq, UnsortedItems)):  # star over one symbolic iteration
             if isinstance(it, SymSeq) and any(isinstance(env[a], Str) for a in accs):
                 self.emissions.append({"fi": fi, "node": st, "what": it.what, "asc": it.asc,
@@ -767,6 +804,10 @@ class ShapeInterp:
             return [(bool(v_.items if isinstance(v_, Fixed) else v_.slots), {**env, test.id: v_}) for v_ in env[test.id].vals]
         if isinstance(test, ast.Constant) and isinstance(test.value, bool):
             return [(test.value, env)]
+        if isinstance(test, ast.Compare) and len(test.ops) == 1 and isinstance(test.ops[0], (ast.Is, ast.IsNot)) and isinstance(test.left, ast.Name) and test.left.id in env \
+                and isinstance(test.comparators[0], ast.Constant) and test.comparators[0].value is None and not isinstance(env[test.left.id], (Int, AltVal)):
+            # a parameter left at its default None / a value that is an object for sure
+            return [((env[test.left.id] is None) == isinstance(test.ops[0], ast.Is), env)]
         graphs = [k for k, v_ in env.items() if isinstance(v_, Graph)]
         if graphs:
             from .rules.common import empty_graph_tests
@@ -855,7 +896,7 @@ class ShapeInterp:
                 and isinstance(env.get(test.comparators[0].id), Counter_):
             cnt = env[test.comparators[0].id]
             l_ = self.ev(fi, test.left, env)
-            sym = l_.p[0][1] if isinstance(l_, Str) and len(l_.p) == 1 and l_.p[0][0] == "lit" else None
+            sym = l_.p[0][1] if isinstance(l_, Str) and len(l_.p) == 1 and l_.p[0][0] == "lit" else (l_[1] if isinstance(l_, tuple) and l_[:1] == ("key",) and isinstance(l_[1], str) else None)
             if sym is not None:
                 pos = isinstance(test.ops[0], ast.In)
                 out = []
@@ -875,6 +916,12 @@ class ShapeInterp:
             return [(True, env), (False, env)]
         if isinstance(test, ast.BoolOp):
             # explore both outcomes without refinement
+            return [(True, env), (False, env)]
+        names_ = {x.id for x in ast.walk(test) if isinstance(x, ast.Name) and x.id in env}
+        if names_ and all(isinstance(env[n_], Graph) for n_ in names_) and isinstance(test, (ast.Compare, ast.UnaryOp, ast.Call)) \
+                and all(isinstance(x, (ast.Compare, ast.UnaryOp, ast.Not, ast.Call, ast.Attribute, ast.Name, ast.Constant, ast.Load, ast.cmpop, ast.operator, ast.unaryop)) for x in ast.walk(test)):
+            # a question about the molecule alone (`m.number_of_edges() == 0`): both answers
+            self.notes.append(f"{fi.loc(test)}: `{short(test)}` asks about the molecule alone: both branches interpreted")
             return [(True, env), (False, env)]
         if isinstance(test, ast.Call) and isinstance(test.func, ast.Name) and test.func.id not in env:
             # a yes/no question put to the molecule by a helper of the repository (`_has_node_attributes(m)`): both answers
@@ -1005,6 +1052,8 @@ class ShapeInterp:
         if isinstance(e, ast.Subscript):
             b = self.ev(fi, e.value, env)
             k = self.ev(fi, e.slice, env)
+            if isinstance(b, tuple) and b[:2] == ("view", "nodes") and isinstance(k, Int):
+                return AttrDict()          # m.nodes[label]: the atom's attribute dictionary
             if isinstance(b, Pair) and isinstance(k, Int) and k.lo is not None and -len(b.items) <= k.lo < len(b.items):
                 return b.items[k.lo]
             if isinstance(b, Counter_):
@@ -1214,6 +1263,8 @@ class ShapeInterp:
                     if isinstance(a, Pair):
                         return Pair(*a.items, asc=False)
                 a = args[0]
+                if isinstance(a, tuple) and a and a[0] == "view":
+                    a = args[0] = self.view(a[1], None)        # sorted(m.nodes) / sorted(m.edges): the view's elements, then sorted like any sequence
                 if isinstance(a, Counter_) and not e.keywords:
                     return SymList([(s_, s_ in a.present) for s_ in sorted(a.uni)], cids={a.cid})
                 if isinstance(a, (SymPieces,)):
